@@ -940,3 +940,35 @@ Proof.
   destruct (negb (o_ignore_errors o || is_response q r0)); [intros H; inversion H|].
   intros H. inversion H; subst. apply receive_udp_deadline in E. lia.
 Qed.
+
+(* ------------------------------------------------------------------ *)
+(* the parser used in the correspondence runs: id and flags are the octets of the datagram  *)
+
+Lemma lookup_header_ok : forall t w,
+  p_err (lookup t w) = None -> header_ok w (lookup t w) = true.
+Proof.
+  induction t as [|[k a] t IH]; intros w H; cbn [lookup] in *.
+  - cbn in H. discriminate.
+  - destruct (zlist_eqb k w).
+    + destruct (header_ok w a) eqn:E; auto. cbn in H. discriminate.
+    + apply IH. auto.
+Qed.
+
+(* for every table of datagram descriptions the harness may supply: what udp() returns starts,
+   on the wire, with the id of the query and has the QR bit set in its third octet, and is at
+   least a full header *)
+Theorem udp_answer_on_the_wire tab q qwire where_ timeout af o sevs evs now i r wire t from rest :
+  udp (lookup tab) q qwire where_ timeout af o sevs evs now = (i, Ok (r, wire, t, from, rest)) ->
+  exists b0 b1 b2 b3 tl, wire = b0 :: b1 :: b2 :: b3 :: tl /\
+    b0 * 256 + b1 = m_id q /\ Z.land (b2 * 256 + b3) fQR <> 0 /\ (12 <= length wire)%nat.
+Proof.
+  intros H. apply udp_returns_genuine in H. destruct H as (Hg & _ & Hp & _).
+  apply from_wire_ok_wellformed in Hp. destruct Hp as (Hsh & He & Hm & _).
+  pose proof (lookup_header_ok tab wire He) as Hh. unfold header_ok in Hh. rewrite Hsh in Hh.
+  apply andb_true_iff in Hh. destruct Hh as [Hl Hh].
+  apply negb_true_iff, Nat.ltb_ge in Hl.
+  destruct wire as [|b0 [|b1 [|b2 [|b3 tl]]]]; cbn [wire_header] in Hh; try discriminate.
+  apply andb_true_iff in Hh. destruct Hh as [Hid Hfl]. apply Z.eqb_eq in Hid, Hfl.
+  destruct Hg as (Hqr & Hi & _). unfold qr_set in Hqr. subst r.
+  exists b0, b1, b2, b3, tl. split; auto. split; [congruence|]. split; [congruence|auto].
+Qed.
